@@ -791,13 +791,14 @@ Proof.
   - exists v'. split; [reflexivity|]. split; [reflexivity|].
     assert (E : (match marshal KFloat (VFloat (FRat 1 big_den)) with
                  | Some t => match unmarshal t with
-                             | UOk KFloat (VFloat (FBig false _ e)) => e <? 0
+                             | UOk KFloat (VFloat (FBig false _ e)) => negb (0 <=? e)
                              | _ => false
                              end
                  | None => false end) = true) by (vm_compute; reflexivity).
     rewrite M, U in E. destruct k; try discriminate E. split; [reflexivity|].
     destruct v' as [| | | |f| |]; try discriminate E. destruct f as [|ng m e|]; try discriminate E.
-    destruct ng; try discriminate E.
+    destruct ng; try discriminate E. apply negb_true_iff in E.
+    assert (Hneg : e < 0) by (apply Z.leb_gt; exact E).
     unfold same_value. cbn [vden fden]. rewrite E. intros H. injection H as H1 H2.
     assert (Z.odd (Z.pos m) = true) by (rewrite <- H1; reflexivity).
     (* 10^1233 is even, a power of two equal to it would have the odd part 5^1233 = 1 *)
